@@ -968,34 +968,16 @@ theorem fresh_cpuView {e : Emu} {b0 b : Bay} {fresh : Nat → Bool} (hc : e.shap
   unfold cpuView cpuSelected
   rw [hnull]; rfl
 
-/-- **emit_step (any simulated step).**  `e → e'` by channel operations the bay
-    can replay (`Sim`: an event's handlers, or the connect-time writes).  From
-    `Inv`, `FreshInv` and `EmitInv`:
-
-    * the bay step of `emu_event` (writes `b → b1`, `bay_propagate` to `bF`, `Inv`
-      again) and `FreshInv` for `freshE fresh e'`;
-    * `bay_propagate` WITH the PRV callbacks (`Bay.propagateP`) fails iff
-      `viewRecordsC e e'` fails — the only error is "forbidden value 0";
-    * otherwise it ends in the same `bF`; its lines `L` (dirty-list order) are a
-      permutation of a list `Lr` (row order of `records`) whose *effective* lines
-      — those that change what their row shows — are exactly `viewRecordsC e e'`;
-      the other lines of `L` repeat the value their row already shows (first
-      emission of a null, `PRV_EMITDUP`, non-null `PRV_SKIPDUPNULL` duplicates);
-    * `EmitInv` holds again with the rows updated by `L`;
-    * `viewRecordsC e e'` succeeds iff `viewRecords e e'` (the model part of
-      `records`) does (⇐ when the mux defaults are legal Paraver values). -/
-theorem emit_step {e e' : Emu} {b0 b : Bay} {fresh : Nat → Bool} {lvs : List (Option Value)} {tvs : List Int}
+/-- The bay step of a simulated step with the registered channels' values before
+    and after: `Bay.viewRecs` on `Shape.regs` IS `viewRecordsC` (the part of
+    `emit_step` that does not depend on the flags of the registrations). -/
+theorem emit_step_frame {e e' : Emu} {b0 b : Bay} {fresh : Nat → Bool}
     (hc : e.shape.connect = .ok b0) (hs : Shaped e) (hi : Inv b0 e b) (hf : FreshInv e.shape b fresh)
-    (hE : EmitInv e.shape.regs lvs tvs b) (hfl : SpecFlagsOk e.specs) (hsim : Sim e e') :
+    (hsim : Sim e e') :
     ∃ b1 bF em, Bay.Writes (· < e.shape.L) b b1 ∧ Mirrors e' b1 ∧ b1.propagate = .ok (bF, em) ∧
       Shaped e'.flushAll ∧ e'.flushAll.shape = e.shape ∧ Inv b0 e'.flushAll bF ∧
       FreshInv e.shape bF (freshE fresh e') ∧
-      ((∃ x, viewRecordsC e e' fresh (freshE fresh e') = .error x) ↔
-        (∃ y, b1.propagateP e.shape.regs lvs = .error y)) ∧
-      (∀ y, b1.propagateP e.shape.regs lvs = .error y → y = .prvZero) ∧
-      (∀ vr, viewRecordsC e e' fresh (freshE fresh e') = .ok vr →
-        ∃ lvs' L Lr, b1.propagateP e.shape.regs lvs = .ok (bF, lvs', L) ∧ L.Perm Lr ∧
-          vr = (Lr.filter (effective tvs)).map (·.2) ∧ EmitInv e.shape.regs lvs' (tvStep tvs L) bF) ∧
+      b.viewRecs e.shape.regs bF = viewRecordsC e e' fresh (freshE fresh e') ∧
       (CpuDfltOk e.specs → ∀ v, viewRecords e e' = .ok v →
         ∃ vr, viewRecordsC e e' fresh (freshE fresh e') = .ok vr) ∧
       (∀ vr, viewRecordsC e e' fresh (freshE fresh e') = .ok vr → ∃ v, viewRecords e e' = .ok v) := by
@@ -1046,8 +1028,6 @@ theorem emit_step {e e' : Emu} {b0 b : Bay} {fresh : Nat → Bool} {lvs : List (
     exact this
   have heq : b.viewRecs e.shape.regs bF = viewRecordsC e e' fresh (freshE fresh e') :=
     viewRecs_eq_viewRecordsC hs' hshape' hthO hthN hcpO hcpN
-  obtain ⟨h1, h2, h3⟩ := Bay.emit_step hi.wf hw hp hE (Shape.regs_flags hfl)
-  rw [heq] at h1 h3
   have hfreshO : ∀ x' ∈ e'.cpus, fresh x'.gindex = true → ∀ ms ∈ e'.specs, ∀ (i : Nat), i < ms.nch →
       ms.cpuDflt i ≠ .null → cpuView e (e.cpus.getD x'.gindex x') ms i = ms.cpuDflt i := by
     intro x' hx' hfc ms hms i hil hdn
@@ -1077,7 +1057,7 @@ theorem emit_step {e e' : Emu} {b0 b : Bay} {fresh : Nat → Bool} {lvs : List (
     have := fresh_cpuView hcF hsF hinv (hshF.symm ▸ hfF) hxF (hspecsF ▸ hk) hil (hgi ▸ hfc) hdn
     rw [cpuView_flushAll] at this
     exact this
-  refine ⟨b1, bF, em, hw, hm1, hp, hsF, hshF, hinv, hfF, h1, h2, h3, ?_, ?_⟩
+  refine ⟨b1, bF, em, hw, hm1, hp, hsF, hshF, hinv, hfF, heq, ?_, ?_⟩
   · intro hd v hv
     exact viewRecordsC_ok hfreshO (hspecs' ▸ hd) hv
   · intro vr hvr
@@ -1086,6 +1066,94 @@ theorem emit_step {e e' : Emu} {b0 b : Bay} {fresh : Nat → Bool} {lvs : List (
     unfold freshE at hfc
     simp only [Bool.and_eq_true] at hfc
     exact hfc.1
+
+/-- **emit_step (any simulated step).**  `e → e'` by channel operations the bay
+    can replay (`Sim`: an event's handlers, or the connect-time writes).  From
+    `Inv`, `FreshInv` and `EmitInv`:
+
+    * the bay step of `emu_event` (writes `b → b1`, `bay_propagate` to `bF`, `Inv`
+      again) and `FreshInv` for `freshE fresh e'`;
+    * `bay_propagate` WITH the PRV callbacks (`Bay.propagateP`) fails iff
+      `viewRecordsC e e'` fails — the only error is "forbidden value 0";
+    * otherwise it ends in the same `bF`; its lines `L` (dirty-list order) are a
+      permutation of a list `Lr` (row order of `records`) whose *effective* lines
+      — those that change what their row shows — are exactly `viewRecordsC e e'`;
+      the other lines of `L` repeat the value their row already shows (first
+      emission of a null, `PRV_EMITDUP`, non-null `PRV_SKIPDUPNULL` duplicates);
+    * `EmitInv` holds again with the rows updated by `L`;
+    * `viewRecordsC e e'` succeeds iff `viewRecords e e'` (the model part of
+      `records`) does (⇐ when the mux defaults are legal Paraver values). -/
+theorem emit_step {e e' : Emu} {b0 b : Bay} {fresh : Nat → Bool} {lvs : List (Option Value)} {tvs : List Int}
+    (hc : e.shape.connect = .ok b0) (hs : Shaped e) (hi : Inv b0 e b) (hf : FreshInv e.shape b fresh)
+    (hE : EmitInv e.shape.regs lvs tvs b) (hfl : SpecFlagsOk e.specs) (hsim : Sim e e') :
+    ∃ b1 bF em, Bay.Writes (· < e.shape.L) b b1 ∧ Mirrors e' b1 ∧ b1.propagate = .ok (bF, em) ∧
+      Shaped e'.flushAll ∧ e'.flushAll.shape = e.shape ∧ Inv b0 e'.flushAll bF ∧
+      FreshInv e.shape bF (freshE fresh e') ∧
+      ((∃ x, viewRecordsC e e' fresh (freshE fresh e') = .error x) ↔
+        (∃ y, b1.propagateP e.shape.regs lvs = .error y)) ∧
+      (∀ y, b1.propagateP e.shape.regs lvs = .error y → y = .prvZero) ∧
+      (∀ vr, viewRecordsC e e' fresh (freshE fresh e') = .ok vr →
+        ∃ lvs' L Lr, b1.propagateP e.shape.regs lvs = .ok (bF, lvs', L) ∧ L.Perm Lr ∧
+          vr = (Lr.filter (effective tvs)).map (·.2) ∧ EmitInv e.shape.regs lvs' (tvStep tvs L) bF) ∧
+      (CpuDfltOk e.specs → ∀ v, viewRecords e e' = .ok v →
+        ∃ vr, viewRecordsC e e' fresh (freshE fresh e') = .ok vr) ∧
+      (∀ vr, viewRecordsC e e' fresh (freshE fresh e') = .ok vr → ∃ v, viewRecords e e' = .ok v) := by
+  obtain ⟨b1, bF, em, hw, hm1, hp, hsF, hshF, hinv, hfF, heq, h4, h5⟩ := emit_step_frame hc hs hi hf hsim
+  obtain ⟨h1, h2, h3⟩ := Bay.emit_step hi.wf hw hp hE (Shape.regs_flags hfl)
+  rw [heq] at h1 h3
+  exact ⟨b1, bF, em, hw, hm1, hp, hsF, hshF, hinv, hfF, h1, h2, h3, h4, h5⟩
+
+/-- every model channel has a duplicate policy (`PRV_ZERO` allowed) -/
+def SpecDupOk (specs : List ModelSpec) : Prop :=
+  ∀ m ∈ specs, ∀ i, i < m.nch → DupOk (m.prvFlags.getD i 0)
+
+theorem SpecFlagsOk.dup {specs : List ModelSpec} (h : SpecFlagsOk specs) : SpecDupOk specs :=
+  fun m hm i hi => (h m hm i hi).1
+
+theorem regs_dup {σ : Shape} (h : SpecDupOk σ.specs) : ∀ r ∈ σ.regs, DupOk r.flags := by
+  intro r hr
+  have key : ∀ (f : Nat → Nat → Nat → Nat) (file : Nat) (row : Nat),
+      r ∈ (σ.specs.zipIdx.flatMap fun mk => (List.range mk.1.nch).map fun i =>
+        ({ chan := f mk.2 i 0, file := file, row := row, type := mk.1.pvtType.getD i 0,
+           flags := mk.1.prvFlags.getD i 0 } : PrvReg)) → DupOk r.flags := by
+    intro f file row hm
+    obtain ⟨mk, hmk, hm⟩ := List.mem_flatMap.mp hm
+    obtain ⟨i, hi, rfl⟩ := List.mem_map.mp hm
+    have hmem : mk.1 ∈ σ.specs := by
+      obtain ⟨m, k⟩ := mk
+      exact List.mem_of_getElem? (List.mem_zipIdx_iff_getElem?.mp hmk)
+    exact h mk.1 hmem i (List.mem_range.mp hi)
+  rcases List.mem_append.mp hr with h1 | h1
+  · obtain ⟨g, _, hg⟩ := List.mem_flatMap.mp h1
+    exact key (fun k i _ => σ.thOut g k i) 0 (g + 1) hg
+  · obtain ⟨c, _, hc⟩ := List.mem_flatMap.mp h1
+    exact key (fun k i _ => σ.cpuOut c k i) 1 (c + 1) hc
+
+/-- **emit_step with `PRV_ZERO` model channels allowed.**  As `emit_step`, for
+    specs whose channels only need a duplicate policy (`SpecDupOk`): the model
+    rows `viewRecordsC` and the lines the PRV callbacks write have the same
+    EFFECTIVE lines (`Bay.emit_step_zero`; with `PRV_ZERO` a line with value 0 for
+    a channel that goes from null to 0 is written by both sides and repeats what
+    the row shows). -/
+theorem emit_step_zero_emu {e e' : Emu} {b0 b : Bay} {fresh : Nat → Bool} {lvs : List (Option Value)}
+    {tvs : List Int}
+    (hc : e.shape.connect = .ok b0) (hs : Shaped e) (hi : Inv b0 e b) (hf : FreshInv e.shape b fresh)
+    (hE : EmitInv e.shape.regs lvs tvs b) (hfl : SpecDupOk e.specs) (hsim : Sim e e') :
+    ∃ b1 bF em, Bay.Writes (· < e.shape.L) b b1 ∧ Mirrors e' b1 ∧ b1.propagate = .ok (bF, em) ∧
+      Shaped e'.flushAll ∧ e'.flushAll.shape = e.shape ∧ Inv b0 e'.flushAll bF ∧
+      FreshInv e.shape bF (freshE fresh e') ∧
+      ((∃ x, viewRecordsC e e' fresh (freshE fresh e') = .error x) ↔
+        (∃ y, b1.propagateP e.shape.regs lvs = .error y)) ∧
+      (∀ y, b1.propagateP e.shape.regs lvs = .error y → y = .prvZero) ∧
+      (∀ vr, viewRecordsC e e' fresh (freshE fresh e') = .ok vr →
+        ∃ lvs' L Lr, b1.propagateP e.shape.regs lvs = .ok (bF, lvs', L) ∧ L.Perm Lr ∧
+          vr = (b.viewLinesT e.shape.regs bF).map (·.2) ∧
+          (b.viewLinesT e.shape.regs bF).filter (effective tvs) = Lr.filter (effective tvs) ∧
+          EmitInv e.shape.regs lvs' (tvStep tvs L) bF) := by
+  obtain ⟨b1, bF, em, hw, hm1, hp, hsF, hshF, hinv, hfF, heq, _, _⟩ := emit_step_frame hc hs hi hf hsim
+  obtain ⟨h1, h2, h3⟩ := Bay.emit_step_zero hi.wf hw hp hE (regs_dup hfl)
+  rw [heq] at h1 h3
+  exact ⟨b1, bF, em, hw, hm1, hp, hsF, hshF, hinv, hfF, h1, h2, h3⟩
 
 /-- **emu_event with the emit phase** (`emit_step` for the handlers of one
     accepted event).  `emu_event` gives the values of all rows after the event;
@@ -1837,11 +1905,11 @@ theorem emu_step_lines {e e2 : Emu} {b0 b : Bay} {ti mc c v : Nat} {p : List Nat
 --      policy, value 0 allowed; the effective lines of `emitView` and of `emit` coincide;
 --      `emit_step_zero_noZero` recovers the old statement; `decide` examples with a
 --      `PRV_SKIPDUP | PRV_ZERO` registration — the flags of the breakdown outputs — where the
---      OLD conclusion is false).  Still restricted to `NoZero`: the emulator-level `emit_step`
---      / `emu_event_emit` / `emu_history_emit` (`SpecFlagsOk` asks `NoZero` of every model
---      channel; every generated spec satisfies it — `generated_prv_flags` — so nothing the
---      reference emulator registers is excluded; lifting it means restating
---      `viewRecordsC = effective lines` on tagged lines as in `emit_step_zero`).  The
+--      OLD conclusion is false); so does the emulator-level step (`emit_step_zero_emu`:
+--      `emit_step` for specs with `SpecDupOk` only, on `Shape.regs`).  Still restricted to
+--      `NoZero`: the per-event / history forms `emu_event_emit` / `emu_history_emit` /
+--      `emu_step_records` (`SpecFlagsOk`; every generated spec satisfies it —
+--      `generated_prv_flags` — so nothing the reference emulator registers is excluded).  The
 --      breakdown outputs themselves are not channels of `bayOf` (6), so `emit_step_zero` is
 --      not instantiated for them here.
 --  (3) The system channels (thread `cpu` / `tid` / `state` row, CPU `nrunning` / `pid` /
